@@ -376,6 +376,10 @@ type cfg struct {
 	// Reset() and re-initialised the way interop.Context.ReuseVM does, and only
 	// then loads the script. Reuse < 0: same prelude, but no Reset (plain reload).
 	Reuse int `json:"reuse_prelude,omitempty"`
+	// ZeroPrice (only with Base == 0): a price getter IS set, but it prices every
+	// instruction at 0, so only what SYSCALL handlers charge through
+	// AddDatoshi/AddPicoGas counts. Base == 0 without ZeroPrice: no price getter.
+	ZeroPrice bool `json:"zero_price_getter,omitempty"`
 }
 
 type finding struct {
@@ -412,6 +416,12 @@ type execOpts struct {
 	// = script did not pass the static check, offsets not asserted).
 	tbl      []loaded // scripts the harness's SYSCALL handler can load (nil: no handler)
 	boundsBy map[util.Uint160][]bool
+	// light runs of fullCheckT (limits need-1 and need only): also the limits 0 and 1
+	lowLimits bool
+	// every path through the program charges a positive amount per loop iteration
+	// even without a price getter (gas-edge programs): termination under a finite
+	// limit is asserted although Base == 0
+	charges bool
 }
 
 func price(base int64) func(opcode.Opcode, []byte) int64 {
@@ -461,6 +471,8 @@ func exec(script []byte, c cfg, o execOpts) (res result) {
 		hookIP = -1
 		hookOp opcode.Opcode
 		offB   = -1
+		offBy  = "entry" // the instruction executed right before the first non-boundary offset (what transferred control there)
+		seenOp bool
 		own    int64
 		pre    [3]byte // kinds of the top stack items before the current instruction
 		npre   int
@@ -471,7 +483,8 @@ func exec(script []byte, c cfg, o execOpts) (res result) {
 		if !live {
 			return
 		}
-		hookIP, hookOp = ip, op
+		prevOp, hadPrev := hookOp, seenOp
+		hookIP, hookOp, seenOp = ip, op, true
 		b, n := o.bounds, len(script)
 		if o.boundsBy != nil {
 			if bb, ok := o.boundsBy[h]; ok { // an instruction of a loaded script
@@ -480,6 +493,9 @@ func exec(script []byte, c cfg, o execOpts) (res result) {
 		}
 		if b != nil && (ip < 0 || ip >= len(b) || !b[ip]) && offB < 0 {
 			offB = ip
+			if hadPrev {
+				offBy = "after-" + prevOp.String()
+			}
 		}
 		if ip < n && c.Base > 0 {
 			own += fee.Opcode(c.Base, op)
@@ -502,6 +518,8 @@ func exec(script []byte, c cfg, o execOpts) (res result) {
 	}
 	if c.Base > 0 {
 		v.SetPriceGetter(price(c.Base))
+	} else if c.ZeroPrice {
+		v.SetPriceGetter(func(opcode.Opcode, []byte) int64 { return 0 })
 	}
 	v.SetGasLimit(c.Gas)
 	if c.NoHF {
@@ -523,6 +541,9 @@ func exec(script []byte, c cfg, o execOpts) (res result) {
 			if res.Cyclic && !c.UseRun && !atEnd {
 				site += "/after-cycle"
 			}
+			if kind == "non-boundary-offset-executed" { // named after the instruction that transferred control there
+				site = offBy
+			}
 			res.F = &finding{Kind: kind, Step: res.Steps, IP: hookIP, Op: hookOp.String(), Msg: msg, Site: site}
 		}
 	}
@@ -533,7 +554,7 @@ func exec(script []byte, c cfg, o execOpts) (res result) {
 		if offB >= 0 {
 			fail("non-boundary-offset-executed", fmt.Sprintf("offset %d of a script accepted by IsScriptCorrect is not an instruction boundary", offB))
 		}
-		if res.State == "HALT" && c.Gas >= 0 && c.Base > 0 {
+		if res.State == "HALT" && c.Gas >= 0 { // without a price getter (Base 0) only the handlers' charges count
 			if res.Gas > c.Gas {
 				fail("halt-with-gas-over-limit", fmt.Sprintf("GasConsumed()=%d > limit %d", res.Gas, c.Gas))
 			}
